@@ -123,6 +123,12 @@ func init() {
 				if r.chance(1, 10) {
 					xs[j].start = a1
 				}
+				if r.chance(1, 10) && a1 > 1000000 { // a boundary within a millisecond of a reference point, not on it
+					xs[j].start = a1 + r.rangeI(-999999, 999999)
+					if xs[j].end < xs[j].start {
+						xs[j].end = xs[j].start
+					}
+				}
 				if r.chance(1, 10) {
 					xs[j].end = a2
 				}
